@@ -7,6 +7,7 @@ import Mathlib.Algebra.Order.Field.Rat
 import Mathlib.Tactic.Linarith
 import Mathlib.Tactic.Ring
 import Mathlib.Tactic.NormNum
+import RV.Props.C05
 
 namespace RV.Props.C01
 open RV.Events
@@ -32,6 +33,17 @@ private theorem mono_lt_iff {jd : Int → Rat} {lo hi : Int} (h : MonoOn jd lo h
     have := (mono_le_iff h hb hb' ha ha').mpr (not_lt.mp hc)
     exact absurd hlt (not_lt.mpr this)
   · exact h a b ha hb'
+
+/-- **the monotonicity hypothesis holds for the real Julian-date function** (C05): for any labelling `civ` of the civil
+time line by valid whole-second instants (what `datetime + timedelta` produces), `t ↦ datetimeToJulianDate (civ t)` is
+strictly increasing, so the theorems below apply to the implementation's `jd` and not merely to an ideal one -/
+theorem jd_monoOn_of_civil (civ : Int → RV.Time.Civil) (lo hi : Int)
+    (h : ∀ t, lo ≤ t → t ≤ hi → RV.Proofs.Time.ValidCivil (civ t) ∧ RV.Time.civilToSeconds (civ t) = t) :
+    MonoOn (fun t => RV.Time.jdOf (civ t)) lo hi := by
+  intro a b ha hb hab
+  obtain ⟨va, sa⟩ := h a ha (by omega)
+  obtain ⟨vb, sb⟩ := h b (by omega) hb
+  exact RV.Props.C05.jd_strict_mono (civ a) (civ b) va vb (by rw [sa, sb]; exact hab)
 
 /-! ### the step windows tile the time axis -/
 
